@@ -58,12 +58,13 @@ type vkVerdict struct {
 	Viol    string
 	Class   string
 	Outcome string
-	VF      bool // the reference reply is a SERVFAIL caused by the tamper breaking validation
+	VF      bool // the reference reply is a SERVFAIL caused by the tamper breaking validation (or by the loss of the trust anchors)
 	VFLeg   bool // the reference reply is a dangling alias caused by the tamper breaking validation of the target's lookup
 	Synth   bool
 }
 
-// vkBase is what the untampered reference run of the same (name, flags, history) replied.
+// vkBase is what the untampered reference run of the same (name, flags, history) replied — for a no-anchor
+// history: of the same history with the trust anchors left in place.
 type vkBase struct {
 	offRcode int
 	offSOA   bool // the untampered reference reply carries a SOA (a complete negative answer)
@@ -131,8 +132,12 @@ func (w *vkWorld) judge(s vkScenario, base *vkBase, off, on vkRun) vkVerdict {
 	if off.reply.AuthenticatedData {
 		offC += "+ad"
 	}
-	v.VF = s.Tamper != nil && base != nil && off.fired && off.reply.Rcode == dns.RcodeServerFailure &&
-		base.offRcode != dns.RcodeServerFailure && !s.F.CD && !s.F.NoRD && w.vkBreaks(*s.Tamper)
+	// a SERVFAIL that appears only because the tamper rewrote DNSSEC material, or only because the chain lost its
+	// trust anchors ("refusing to validate"), is a validation failure of the AAAA lookup
+	byTamper := s.Tamper != nil && off.fired && w.vkBreaks(*s.Tamper)
+	byAnchors := s.Tamper == nil && vkHistNoAnchor(s.Hist)
+	v.VF = (byTamper || byAnchors) && base != nil && off.reply.Rcode == dns.RcodeServerFailure &&
+		base.offRcode != dns.RcodeServerFailure && !s.F.CD && !s.F.NoRD
 	if v.VF {
 		offC = "validation-failure"
 	}
@@ -175,6 +180,9 @@ func (w *vkWorld) judge(s vkScenario, base *vkBase, off, on vkRun) vkVerdict {
 		return bad("synth-over-nxdomain", "synthesised AAAA although the AAAA lookup ended in NXDOMAIN")
 	}
 	if v.VF {
+		if byAnchors {
+			return bad("synth-over-validation-failure", "synthesised AAAA although the chain has no trust anchor and the AAAA lookup itself was refused validation (reference chain: SERVFAIL, %s)", vkEDEs(off.reply))
+		}
 		return bad("synth-over-validation-failure", "synthesised AAAA although the AAAA lookup itself failed DNSSEC validation (reference chain: SERVFAIL, %s)", vkEDEs(off.reply))
 	}
 	if v.VFLeg {
@@ -281,10 +289,17 @@ func (w *vkWorld) vkKey(s vkScenario, class string, off *dns.Msg) string {
 	if off != nil && off.Rcode == dns.RcodeServerFailure {
 		k += "|reference=SERVFAIL " + vkEDEClass(off)
 	}
-	if s.Tamper != nil {
+	switch {
+	case s.Tamper != nil:
 		_, role := w.roleOf(s.Tamper.Key)
 		k += "|tampered=" + role
-	} else {
+		if s.Then != nil {
+			_, role2 := w.roleOf(s.Then.Key)
+			k += "|then=" + s.Then.Kind + "@" + role2
+		}
+	case vkHistNoAnchor(s.Hist):
+		k += "|trust-anchors-removed"
+	default:
 		k += "|untampered:" + s.Name
 	}
 	return k
@@ -341,9 +356,9 @@ func TestVerifC20E2E(t *testing.T) {
 			return
 		}
 		var base *vkBase
-		if s.Tamper != nil {
+		if s.Tamper != nil || vkHistNoAnchor(s.Hist) {
 			s0 := s
-			s0.Tamper = nil
+			s0.Tamper, s0.Then, s0.Hist = nil, nil, vkHistAnchored(s.Hist)
 			b := w.run(w.off, s0)
 			if b.reply != nil {
 				base = &vkBase{offRcode: b.reply.Rcode, offSOA: hasSOA(b.reply.Ns)}
@@ -377,6 +392,9 @@ func TestVerifC20E2E(t *testing.T) {
 	}
 	capped := false
 	hists := []string{vkHistCold, vkHistWarm, vkHistStale}
+	if vkExtraOn {
+		hists = append(hists, vkHistNoAnchors, vkHistNoAnchorsStale)
+	}
 outer:
 	for _, rot := range rots {
 		w, err := vkGetWorld(c, rot)
@@ -397,6 +415,10 @@ outer:
 					if c.OverBudget() {
 						capped = true
 						break outer
+					}
+					if vkHistNoAnchor(h) {
+						w.anchorCase(vkScenario{Rot: rot, Name: nm.Name, F: f, Hist: h})
+						continue
 					}
 					w.cases(vkScenario{Rot: rot, Name: nm.Name, F: f, Hist: h}, kinds)
 				}
@@ -475,50 +497,126 @@ func (w *vkWorld) cases(s0 vkScenario, kinds []vkKind) {
 			s := s0
 			s.Tamper = &vkTamper{Key: ex.Key(), Kind: k.Name}
 			p := w.runPair(s, base)
-			c.Add("scenarios", 1)
-			if p.v.VFLeg {
-				c.Add("validation_failure_alias_target_scenarios", 1)
-			}
-			if p.v.VF {
-				c.Add("validation_failure_scenarios", 1)
-				c.Add("vf:"+k.Name, 1)
-				c.Add("vf-hist:"+s0.Hist, 1)
-				c.Add(fmt.Sprintf("vf-at:%s:%s", zone, role), 1)
-				lbl := "on:" + vkRcodeClass(p.on.reply)
-				if p.v.Synth {
-					lbl = "on:SYNTHESIS"
-				}
-				c.Outcome("validation failure, reference SERVFAIL " + vkEDEClass(p.off.reply) + " -> " + lbl)
-				if vkEDEClass(p.off.reply) == "EDE 0" {
-					c.Outcome("reference " + vkEDEs(p.off.reply) + " <- " + k.Name + " on " + role)
-				}
-			}
-			if eligible && w.vkBreaks(*s.Tamper) {
-				c.Add("breaking:"+k.Name, 1)
-			}
-			if p.v.Viol != "" {
-				// one confirmation (3 cold re-runs) per key and shard; every violating scenario is counted
-				c.Add("violating_scenarios", 1)
-				c.Add("violating:"+p.v.Class, 1)
-				key := w.vkKey(s, p.v.Class, p.off.reply)
-				if !w.reported[key] {
-					w.reported[key] = true
-					w.report(s, base, p)
-				}
+			w.account(s, base, p, pos, zone, role)
+			if !vkExtraOn || !eligible {
 				continue
 			}
-			if !p.off.fired || !p.on.fired {
-				c.Add("tamper_not_reached", 1)
-				c.Note(fmt.Sprintf("tamper not reached (off=%v on=%v): %s", p.off.fired, p.on.fired, s))
-			} else {
-				c.DistinctStr("nontrivial", fmt.Sprintf("%s|%d|%s", s0, pos, k.Name))
-			}
-			c.Outcome(p.v.Outcome)
-			if p.v.Synth && p.off.reply.Rcode == dns.RcodeServerFailure {
-				c.Outcome(fmt.Sprintf("synthesis over a SERVFAIL that is not classed as a validation failure (allowed): %s on %s, reference %s", k.Name, role, vkEDEs(p.off.reply)))
+			// family: the tamper provokes DS sub-queries (the resolver asks whether the name sits under an insecure
+			// delegation); ONE of them is answered with nothing but a header
+			for _, dx := range p.off.path {
+				if dx.QType != dns.TypeDS || dx.Key() == ex.Key() {
+					continue
+				}
+				dq := dns.Question{Name: dx.QName, Qtype: dx.QType, Qclass: dns.ClassINET}
+				dctx := &vkTamperCtx{u: w.u, server: dx.Server, q: dq, zone: w.u.HostedZone(dx.Server, dx.QName, dx.QType)}
+				for _, bk := range vkBareKinds {
+					if !vkKindByName(bk).Fn(dctx, w.u.ServerAnswer(dx.Server, dq, dx.DO)) {
+						continue
+					}
+					s2 := s
+					s2.Then = &vkTamper{Key: dx.Key(), Kind: bk}
+					c.Add("ds_family_scenarios", 1)
+					w.account(s2, base, w.runPair(s2, base), pos, zone, role)
+				}
 			}
 		}
 	}
+}
+
+// account: counters, outcomes and the violation report of one tampered scenario.
+func (w *vkWorld) account(s vkScenario, base *vkBase, p vkPair, pos int, zone, role string) {
+	c := w.c
+	kind := s.Tamper.Kind
+	if s.Then != nil {
+		kind += "+" + s.Then.Kind + "@ds"
+	}
+	eligible := !s.F.CD && !s.F.NoRD
+	c.Add("scenarios", 1)
+	if p.v.VFLeg {
+		c.Add("validation_failure_alias_target_scenarios", 1)
+	}
+	if p.v.VF {
+		c.Add("validation_failure_scenarios", 1)
+		c.Add("vf:"+kind, 1)
+		c.Add("vf-hist:"+s.Hist, 1)
+		c.Add(fmt.Sprintf("vf-at:%s:%s", zone, role), 1)
+		lbl := "on:" + vkRcodeClass(p.on.reply)
+		if p.v.Synth {
+			lbl = "on:SYNTHESIS"
+		}
+		c.Outcome("validation failure, reference SERVFAIL " + vkEDEClass(p.off.reply) + " -> " + lbl)
+		if vkEDEClass(p.off.reply) == "EDE 0" {
+			c.Outcome("reference " + vkEDEs(p.off.reply) + " <- " + kind + " on " + role)
+		}
+	}
+	if eligible && w.vkBreaks(*s.Tamper) {
+		c.Add("breaking:"+kind, 1)
+	}
+	if p.v.Viol != "" {
+		// one confirmation (3 cold re-runs) per key and shard; every violating scenario is counted
+		c.Add("violating_scenarios", 1)
+		c.Add("violating:"+p.v.Class, 1)
+		key := w.vkKey(s, p.v.Class, p.off.reply)
+		if !w.reported[key] {
+			w.reported[key] = true
+			w.report(s, base, p)
+		}
+		return
+	}
+	switch {
+	case !p.off.fired || !p.on.fired:
+		c.Add("tamper_not_reached", 1)
+		c.Note(fmt.Sprintf("tamper not reached (off=%v on=%v): %s", p.off.fired, p.on.fired, s))
+	case s.Then != nil && !p.off.fired2:
+		c.Add("second_tamper_not_reached", 1)
+	default:
+		c.DistinctStr("nontrivial", fmt.Sprintf("%s|%d|%s", s, pos, kind))
+	}
+	c.Outcome(p.v.Outcome)
+	if p.v.Synth && p.off.reply.Rcode == dns.RcodeServerFailure {
+		c.Outcome(fmt.Sprintf("synthesis over a SERVFAIL that is not classed as a validation failure (allowed): %s on %s, reference %s", kind, role, vkEDEs(p.off.reply)))
+	}
+}
+
+// anchorCase: one no-anchor scenario (no tamper). The baseline is the reference chain's reply in the same
+// history with the trust anchors in place.
+func (w *vkWorld) anchorCase(s vkScenario) {
+	c := w.c
+	s0 := s
+	s0.Hist = vkHistAnchored(s.Hist)
+	b := w.run(w.off, s0)
+	if b.reply == nil {
+		c.HarnessError("no reference reply: " + s0.String())
+		return
+	}
+	base := &vkBase{offRcode: b.reply.Rcode, offSOA: hasSOA(b.reply.Ns)}
+	p := w.runPair(s, base)
+	c.Add("scenarios", 1)
+	c.Add("anchor_scenarios", 1)
+	if p.v.VF {
+		c.Add("validation_failure_scenarios", 1)
+		c.Add("vf:trust-anchors-removed", 1)
+		c.Add("vf-hist:"+s.Hist, 1)
+		lbl := "on:" + vkRcodeClass(p.on.reply)
+		if p.v.Synth {
+			lbl = "on:SYNTHESIS"
+		}
+		c.Outcome("trust anchors removed, reference SERVFAIL " + vkEDEs(p.off.reply) + " -> " + lbl)
+	}
+	if p.v.Viol != "" {
+		c.Add("violating_scenarios", 1)
+		c.Add("violating:"+p.v.Class, 1)
+		key := w.vkKey(s, p.v.Class, p.off.reply)
+		if !w.reported[key] {
+			w.reported[key] = true
+			w.report(s, base, p)
+		}
+		return
+	}
+	if p.v.VF || p.v.Synth {
+		c.DistinctStr("nontrivial", "anchors|"+s.String())
+	}
+	c.Outcome("baseline " + s.Hist + ": " + p.v.Outcome)
 }
 
 func vkEDEClass(m *dns.Msg) string {
